@@ -69,6 +69,7 @@ func intersect(a, b nilFacts) nilFacts {
 type nilSummary struct {
 	retNonNil      []bool   // result i is never nil
 	retNonNilNoErr []bool   // result i is non-nil on every return whose error result is nil
+	retNonNilOk    []bool   // result i is non-nil on every return whose last (bool) result may be true
 	paramNonNil    []bool   // parameter k is non-nil at every in-package call site (unexported functions)
 	retFields      []strset // result i: access-path suffixes (".Regions") known non-nil at every return; nil = not yet computed
 	paramFields    []strset // parameter k: suffixes known non-nil at every in-package call site
@@ -99,6 +100,7 @@ type NilAnalysis struct {
 	byName    map[*ssa.Function]map[string]ssa.Value
 	litF      map[string]bool
 	escF      map[string]map[string]bool
+	condDepth int
 	freezeNN  bool // warm-up rounds: parameter non-nil facts are not falsified yet
 	converged bool
 }
@@ -168,6 +170,16 @@ func (a *NilAnalysis) loc(addr ssa.Value) string {
 		return "g:" + x.Name()
 	case *ssa.FreeVar:
 		return "fv:" + x.Name()
+	case *ssa.Parameter:
+		// *p for a pointer parameter to a slice, map, struct or pointer: one location for the whole call (two loads
+		// with no store of that type and no writing call between them see the same value).  Pointers to basic values
+		// are left out: stores through other pointers of the same basic type are not tracked as possible aliases.
+		if pt, ok := x.Type().Underlying().(*types.Pointer); ok {
+			switch pt.Elem().Underlying().(type) {
+			case *types.Slice, *types.Map, *types.Struct, *types.Pointer:
+				return "dp:" + x.Name()
+			}
+		}
 	}
 	return ""
 }
@@ -290,9 +302,9 @@ func NewNilAnalysis(p *Prog) *NilAnalysis {
 	for _, fn := range fns {
 		s := &nilSummary{}
 		n := fn.Signature.Results().Len()
-		s.retNonNil, s.retNonNilNoErr = make([]bool, n), make([]bool, n)
+		s.retNonNil, s.retNonNilNoErr, s.retNonNilOk = make([]bool, n), make([]bool, n), make([]bool, n)
 		for i := 0; i < n; i++ {
-			s.retNonNil[i], s.retNonNilNoErr[i] = true, true // optimistic, falsified by iteration
+			s.retNonNil[i], s.retNonNilNoErr[i], s.retNonNilOk[i] = true, true, true // optimistic, falsified by iteration
 		}
 		s.retFields = make([]strset, n)
 		s.paramFields = make([]strset, len(fn.Params))
